@@ -379,9 +379,11 @@ class _FuncWalker:
                 if self.env.get(nm) in (HOSTILE, EVENT):
                     self.env[nm] = _narrow_kind(st.test, nm)   # the else branch runs when the isinstance test held
             self.block(st.orelse)
-            exits = bool(st.body) and isinstance(st.body[-1], (ast.Return, ast.Raise, ast.Continue, ast.Break))
-            if exits and neg:
-                return   # `if not isinstance(x, T): return ...` - what follows runs with x narrowed, the body's state does not flow on
+            if _always_exits(st.body):
+                return   # `if c: return/raise ...` - only the else state flows on (with x narrowed after `if not isinstance(x, T): return`)
+            if _always_exits(st.orelse):
+                self._restore(s1)
+                return
             self._join(s1)
             return
         if isinstance(st, ast.While):
@@ -423,6 +425,8 @@ class _FuncWalker:
                     self.env[h.name] = HOSTILE  # the exception object comes out of arbitrary code
                     self.origin[h.name] = "<caught exception>"
                 self.block(h.body)
+                if _always_exits(h.body):
+                    continue   # a handler that re-raises / returns contributes nothing to the state after the try statement
                 self._join(acc)
                 acc = self._snap()
             self._restore(acc)
@@ -716,6 +720,18 @@ class _FuncWalker:
                     fbind[name] = tgt
         lvl = self.level(e)
         return self.an.analyse(rel, fn, kinds, lvl, origins, fbind)
+
+
+def _always_exits(block) -> bool:
+    """The statement list always leaves (return / raise / continue / break as its last statement, or an if/else whose arms both do)."""
+    if not block:
+        return False
+    last = block[-1]
+    if isinstance(last, (ast.Return, ast.Raise, ast.Continue, ast.Break)):
+        return True
+    if isinstance(last, ast.If):
+        return _always_exits(last.body) and _always_exits(last.orelse)
+    return False
 
 
 def _narrow_kind(test, name) -> str:
